@@ -16,6 +16,10 @@ if st:
     print("refusing: /repo has uncommitted changes:\n" + st); sys.exit(2)
 subprocess.run(["git", "-C", "/repo", "apply", os.path.join(d, "patch.diff")], check=True)
 res = {}
+# evidence/ describes the unchanged tree: keep it aside while the checks run against the changed one
+import shutil, tempfile
+keep = tempfile.mkdtemp(prefix="evidence-keep-")
+shutil.copytree(os.path.join(ROOT, "evidence"), os.path.join(keep, "evidence"))
 try:
     for p in props:
         r = subprocess.run([os.path.join(ROOT, "check"), p, "quick"], cwd=ROOT, capture_output=True, text=True, timeout=3600)
@@ -27,6 +31,9 @@ try:
 finally:
     subprocess.run(["git", "-C", "/repo", "checkout", "--", "."], check=True)
     subprocess.run(["git", "-C", "/repo", "clean", "-fdq", "--", "zz_demo*", "caddy/zz_demo*"], check=False)
+shutil.rmtree(os.path.join(ROOT, "evidence"))
+shutil.copytree(os.path.join(keep, "evidence"), os.path.join(ROOT, "evidence"))
+shutil.rmtree(keep)
 # the binaries under .build were built from the changed tree: rebuild them from the restored one
 subprocess.run([os.path.join(ROOT, "tools/build.sh")], capture_output=True)
 subprocess.run([os.path.join(ROOT, ".build/extract"), os.path.join(ROOT, "lean/Mercure/Generated/Facts.lean"), os.path.join(ROOT, ".build/facts.json"), "/repo"], capture_output=True)
